@@ -2,3 +2,4 @@ import MambaVerif.Props.C18
 import MambaVerif.Props.C14
 import MambaVerif.Props.C03
 import MambaVerif.Props.C10
+import MambaVerif.Props.C20
